@@ -141,7 +141,7 @@ def trace_validation(ctx, pid, quick):
                                                           16384)]
     per = 12 if quick else 150
     modes = ['mixed', 'whole', 'tiny', 'mixed nopi', 'stall whole',
-             'tiny nopause']
+             'tiny nopause', 'mixed rekey', 'whole rekey nopi']
     good = []
     total = matched = 0
     for ci, (iw, pk, hi, lo) in enumerate(configs):
@@ -154,16 +154,22 @@ def trace_validation(ctx, pid, quick):
                         nwrites=4 + i % 4, mode=mode, high=hi, low=lo)
             r = channel.record_natural(**args)
             r['args'] = args
-            recs.append(r)
+            # sessions with key re-exchanges all along are judged by the
+            # monitors only: packets held back while an exchange runs leave
+            # later than the step that wrote them, which Channel.tla (one
+            # layer up) does not describe
+            if 'rekey' not in mode:
+                recs.append(r)
             ctx.count(('trace', iw, pk, len(chans), mode, i),
                       nontrivial=r['npause'] > 0 and r['nadj'] > 0)
-            if r['l1']:
+            mine = [c for c in r['l1'] if c.startswith(pid)]
+            if mine:
                 ctx.violation({'module': 'ChannelTrace', 'window': iw,
                                'pktsize': pk, 'clauses': sorted(
-                                   {c.split(':')[0] for c in r['l1']})},
-                              '; '.join(r['l1'][:3]),
+                                   {c.split(':')[0] for c in mine})},
+                              '; '.join(mine[:3]),
                               replay={'kind': 'natural', **args})
-            if r['stray']:
+            if r['stray'] and 'rekey' not in mode:
                 ctx.divergence(f'natural session {args}: packets outside '
                                f'any step: {r["stray"][:3]}')
             if r['loop_exceptions']:
@@ -313,3 +319,38 @@ def duplex_replay(ctx, rp, sig, clauses):
     ctx.count(('replay', 'duplex'))
     if mine:
         ctx.violation(sig, '; '.join(mine[:3]), replay=rp)
+
+
+def natural_rekey(ctx, pid, quick):
+    """Naturally scheduled sessions (see trace_validation) on a connection
+    that re-keys all along, judged by the monitors of property `pid`."""
+    from harness.drivers import channel
+    configs = [(5, 3, 1, 0), (16, 5, 8, 2), (4, 4, 3, 0)] if quick else \
+        [(5, 3, 1, 0), (1, 1, 0, 0), (16, 5, 8, 2), (4, 4, 3, 0),
+         (64, 32, 100, 25)]
+    per = 14 if quick else 120
+    modes = ['mixed rekey', 'whole rekey nopi', 'tiny rekey', 'stall rekey']
+    n = 0
+    for ci, (iw, pk, hi, lo) in enumerate(configs):
+        for i in range(per):
+            args = dict(seed=ctx.seed * 104729 + ci * 1000 + i,
+                        chans=[1, 2] if i % 2 else [1], initwin=iw,
+                        pktsize=pk, nwrites=5 + i % 4,
+                        mode=modes[i % len(modes)], high=hi, low=lo)
+            r = channel.record_natural(**args)
+            n += 1
+            ctx.count(('natural-rekey', iw, pk, i), nontrivial=True)
+            mine = [c for c in r['l1'] if c.startswith(pid)]
+            if mine:
+                ctx.violation({'module': 'ChannelNatural', 'rekey': True,
+                               'clauses': sorted({c.split(':')[0]
+                                                  for c in mine})},
+                              '; '.join(mine[:3]),
+                              replay={'kind': 'natural', **args})
+            if r['loop_exceptions']:
+                ctx.violation({'module': 'ChannelNatural', 'rekey': True,
+                               'loop': True},
+                              f'natural session {args}: exception reached '
+                              f'the event loop: {r["loop_exceptions"][0]}',
+                              replay={'kind': 'natural', **args})
+    ctx.traces_validated(n)
